@@ -5,6 +5,7 @@ package main
 
 import (
 	"fmt"
+	"os"
 	"go/types"
 	"path/filepath"
 	"strconv"
@@ -71,9 +72,11 @@ func (P *Program) findIntrinsic(fn *ssa.Function) intrinsicFn {
 		}
 	}
 	// harness runtime API (functions of the package under test named v<Upper>…)
-	if fn.Pkg == P.mainPkg && fn.Parent() == nil && fn.Signature.Recv() == nil {
+	if fn.Parent() == nil && fn.Signature.Recv() == nil && fn.Pkg != nil {
 		if h, ok := harnessAPI[fn.Name()]; ok {
-			return h
+			if fn.Pkg == P.mainPkg || strings.HasSuffix(P.fset.Position(fn.Pos()).Filename, "zz_verif_rt.go") {
+				return h
+			}
 		}
 	}
 	if entries, ok := P.stubs[name]; ok {
@@ -236,7 +239,18 @@ func init() {
 			return c
 		},
 		"vSymbolic": func(fr *frame, fn *ssa.Function, args []value) value { return fr.in.ts.True },
-		"vNote":     func(fr *frame, fn *ssa.Function, args []value) value { return nil },
+		"vNote": func(fr *frame, fn *ssa.Function, args []value) value {
+			if os.Getenv("GOSYM_DEBUG") != "" {
+				var parts []string
+				if va, ok := args[0].([]value); ok {
+					for _, a := range va {
+						parts = append(parts, fr.in.showArg(a)+"="+showValue(a))
+					}
+				}
+				fmt.Fprintln(os.Stderr, "NOTE:", strings.Join(parts, " | "))
+			}
+			return nil
+		},
 		"vJSONEncode": vJSONEncode,
 		"vJSONDecode": vJSONDecode,
 		"vGhostSet": func(fr *frame, fn *ssa.Function, args []value) value {
@@ -793,20 +807,70 @@ func (in *Interp) isErrorType(t types.Type) bool {
 	return types.Implements(t, errT)
 }
 
-// fmtOpaque renders what it can of a format call (concrete pieces only).
+// fmtOpaque renders a format call: concrete arguments are formatted by the real fmt package,
+// errors through their Error method, everything else as an opaque placeholder.
 func (in *Interp) fmtOpaque(format value, va value) value {
 	f, _ := concreteString(format)
-	var parts []string
+	var goArgs []any
 	if s, ok := va.([]value); ok {
 		for _, a := range s {
-			parts = append(parts, in.showArg(a))
+			goArgs = append(goArgs, in.goArg(a))
 		}
 	}
-	in.P.noteModelName("fmt.* = opaque text")
+	in.P.noteModelName("fmt.* = real formatting of concrete arguments, opaque placeholders for symbolic ones")
 	if f == "" {
-		return strings.Join(parts, " ")
+		return fmt.Sprint(goArgs...)
 	}
-	return f + " ‹" + strings.Join(parts, ", ") + "›"
+	return fmt.Sprintf(f, goArgs...)
+}
+
+type fmtErrText struct{ s string }
+
+func (e fmtErrText) Error() string { return e.s }
+
+type fmtPlaceholder string
+
+func (p fmtPlaceholder) String() string { return string(p) }
+
+// goArg converts an interpreter value (boxed in an interface) to a native Go value for fmt.
+func (in *Interp) goArg(a value) any {
+	ai, ok := a.(iface)
+	if !ok {
+		return fmtPlaceholder("?")
+	}
+	if ai.t == nil {
+		return nil
+	}
+	if in.isErrorType(ai.t) {
+		return fmtErrText{in.showArg(a)}
+	}
+	switch v := ai.v.(type) {
+	case *Term:
+		if !v.IsConst() {
+			return fmtPlaceholder("‹sym›")
+		}
+		w, signed, _ := intInfo(ai.t)
+		if w == 0 {
+			return v.val == 1
+		}
+		if signed {
+			return v.SVal()
+		}
+		return v.val
+	case string:
+		return v
+	case float64:
+		return v
+	case []value:
+		if b, ok := concreteBytes(v); ok {
+			if sl, isSl := under(ai.t).(*types.Slice); isSl {
+				if w, _, _ := intInfo(sl.Elem()); w == 8 {
+					return b
+				}
+			}
+		}
+	}
+	return fmtPlaceholder("‹" + ai.t.String() + "›")
 }
 
 func (in *Interp) showArg(a value) string {
